@@ -1,7 +1,7 @@
 #!/bin/sh
-# tools_mut.sh '<python snippet editing files under cwd>' PROP...   -- run checks against a mutated scratch copy
+# tools_mutc.sh '<python snippet editing files under cwd>' PROP...  -- scratch copy incl. girepository
 D=$(mktemp -d /tmp/givc-mut.XXXXXX)
-cp -r /repo/giscanner "$D/"
+cp -r /repo/giscanner "$D/"; cp -r /repo/girepository "$D/"
 ( cd "$D" && python3 -c "$1" ) || { rm -rf "$D"; exit 9; }
 shift
 for p in "$@"; do GIVC_REPO="$D" /verif/check "$p" | grep -E "^(VIOLATION|UNDECIDED|CHECKER|C[0-9]+:)" ; done
